@@ -4,6 +4,52 @@ import time
 import os
 
 
+def _case_split(z3, smt2, timeout_ms):
+    """the goal's skolem index against the index of the element the loop body just processed: three E-matching queries
+    (<, ==, >) instead of one; every case must be unsat (a complete case distinction, so this is a proof by cases)"""
+    fs = z3.parse_smt2_string(smt2)
+    terms, rest = [], []
+    for f in fs:
+        if z3.is_app(f) and f.decl().name() == "split!Int":
+            terms.append(f.arg(0))
+        else:
+            rest.append(f)
+    sks, seen = [], set()
+
+    def walk(t):
+        if t.get_id() in seen:
+            return
+        seen.add(t.get_id())
+        if z3.is_quantifier(t):
+            walk(t.body())
+            return
+        if z3.is_const(t) and t.decl().kind() == z3.Z3_OP_UNINTERPRETED and t.decl().name().startswith("sk!") \
+                and t.sort().kind() == z3.Z3_INT_SORT:
+            sks.append(t)
+        for c in t.children():
+            walk(c)
+    for f in rest:
+        walk(f)
+    if not terms or not sks:
+        return None
+
+    def unsat_with(extra):
+        s = z3.Solver()
+        s.set("timeout", timeout_ms)
+        s.set("auto_config", False)
+        s.set("mbqi", False)
+        s.add(*rest)
+        s.add(*extra)
+        return s.check() == z3.unsat
+    for t in terms[:3]:
+        cases = [[]]
+        for sk in sks[:2]:
+            cases = [c + [rel] for c in cases for rel in (sk < t, sk == t, sk > t)]
+        if all(unsat_with(c) for c in cases):
+            return "%d cases on %s" % (len(cases), t)
+    return None
+
+
 def solve(task):
     name, smt2, timeout_ms, want_model, second = task
     t0 = time.time()
@@ -56,11 +102,28 @@ def solve(task):
             out["reason"] = "ground pass: %s" % e
         # pass 1: E-matching only (fast, complete enough for the trigger-annotated VCs); pass 2: default configuration
         s = z3.SolverFor("ALL") if False else z3.Solver()
-        s.set("timeout", min(timeout_ms, 20000))
+        has_split = "split!Int" in smt2
+        s.set("timeout", min(timeout_ms, 3000 if has_split else 20000))
         s.set("auto_config", False)
         s.set("mbqi", False)
         s.from_string(smt2)
         r = s.check()
+        if r != z3.unsat and has_split:
+            try:
+                how = _case_split(z3, smt2, min(timeout_ms, 10000))
+            except Exception as e:
+                how = None
+                out["reason"] += " | case split: %s" % e
+            if how:
+                out["verdict"], out["backend"] = "proved", "z3-5.1(api,ematching,case-split %s)" % how
+                out["seconds"] = round(time.time() - t0, 3)
+                return out
+            s = z3.Solver()
+            s.set("timeout", min(timeout_ms, 20000))
+            s.set("auto_config", False)
+            s.set("mbqi", False)
+            s.from_string(smt2)
+            r = s.check()
         if r != z3.unsat:
             s = z3.Solver()
             s.set("timeout", timeout_ms)
